@@ -16,10 +16,12 @@ pub fn check_total(text: &str) -> Result<(usize, usize, u64), Failure> {
     let steps = syntax::verif::steps();
     syntax::verif::reset(u64::MAX);
     let root = parse.syntax_node();
-    let _tree_tok = root.descendants_with_tokens().filter(|e| matches!(e, NodeOrToken::Token(_))).count();
-    // … then the stated linear bound against the number of lexical tokens (text inside
-    // preprocessor-disabled regions is lexed too, so the raw token count is the measure)
-    let ntok = {
+    let tree_tok = root.descendants_with_tokens().filter(|e| matches!(e, NodeOrToken::Token(_))).count();
+    // … then the stated linear bound against the number of lexical tokens: the larger of the raw
+    // token count (several raw tokens can end up in one tree token, e.g. the preprocessor directives)
+    // and the tree's token count (a disabled region is skipped line by line and is one tree token, but
+    // the raw lexer may read an unterminated construct in it up to the end of the file)
+    let ntok = tree_tok.max({
         use syntax::token_stream::TokenStream;
         let mut lx = syntax::lexer::Lexer::new(text);
         let mut n = 0usize;
@@ -27,7 +29,7 @@ pub fn check_total(text: &str) -> Result<(usize, usize, u64), Failure> {
             n += 1;
         }
         n
-    };
+    });
     let bound = WORK_FACTOR * (ntok as u64 + 1) + WORK_CONST;
     if steps > bound {
         return Err(Failure::plain("C02.work-bound", format!("{steps} parser steps for {ntok} tokens (bound {bound})")));
